@@ -141,6 +141,12 @@ func (m Mix) next(g *sim.G) *sim.Op {
 		queueOps(g, ops[1:]...)
 		return ops[0]
 	}
+	// an ownership transfer in flight: let the pending owner accept now and then (otherwise rare)
+	if p := g.W.Model.Pending; p != nil && m.Admin > 0 && len(m.AdminTypes) == 0 && g.Pct("accept-pending", 10) {
+		if a, err := sdk.AccAddressFromBech32(*p); err == nil && sim.AcctOfBytes(a) >= 0 {
+			return sim.TxOp("admin:AcceptOwner", &types.MsgAcceptOwner{From: *p})
+		}
+	}
 	total := m.Send + m.Dep + m.Recv + m.Replay + m.Replace + m.RepDep + m.Admin + m.Ledger + m.Multi
 	k := g.Int("op", 0, total-1)
 	pick := func(w int) bool {
